@@ -430,12 +430,36 @@ Section Steps.
     end.
 
   (** ---- DelFile ---- *)
-  Lemma del_file_inv s R removed ok s' r :
-    del_file U s R removed ok = (s', r) -> legal (ODel R removed ok) -> InvC (store s) s -> disc_ok s ->
+  (** the part of [DelFile] after the root has been registered in the pyramid table *)
+  Definition del_file_tail (s : st) (f : fdesc) (R : addr) (removed : list addr) (ok : bool) : st * rc :=
+    let py := pyramid_cids f in
+    let hashs := filter (fun k => match aget k py with Some _ => false | None => true end) (f_trie f) in
+    let s1 := w_store s (sdel_all removed (store s)) in
+    if negb ok then (s1, RErr)
+    else
+      let t := fold_left (fun t c => del_chunk c t) (map fst py) (fold_left (fun t c => del_chunk c t) hashs (cc s1)) in
+      let s2 := w_hd (w_cc s1 t) (adel R (hd s1)) in
+      let s3 := del_discover_presence s2 R in
+      let s4 := w_cs (w_kv_srcp (w_kv_srcc s3 (adel R (kv_srcc s3))) (adel R (kv_srcp s3))) (adel R (cs s3)) in
+      let s5 := w_ct_ov (w_ct (w_kv_chunk s4 (adel R (kv_chunk s4))) (adel R (ct s4))) (adel R (ct_ov s4)) in
+      (s5, ROk).
+  Lemma del_file_unfold s R removed ok :
+    del_file U s R removed ok =
+    match trav U (store s) R with
+    | None => (s, RErr)
+    | Some f => let '(s0, okp) := init_chunk_pyramid U s R in
+                if negb okp then (s0, RErr) else del_file_tail s0 f R removed ok
+    end.
+  Proof.
+    unfold del_file, del_file_tail. destruct (trav U (store s) R); [|reflexivity].
+    destruct (init_chunk_pyramid U s R) as [s0 okp]. reflexivity.
+  Qed.
+
+  Lemma del_file_tail_inv s f R removed ok s' r :
+    del_file_tail s f R removed ok = (s', r) -> legal (ODel R removed ok) -> InvC (store s) s -> disc_ok s ->
     InvC (store s') s' /\ disc_ok s'.
   Proof.
-    unfold del_file. intros H (Hfail & Hrem) I D.
-    destruct (trav U (store s) R) as [f|] eqn:Et; [|injection H as <- <-; auto].
+    unfold del_file_tail. intros H (Hfail & Hrem) I D.
     destruct ok; cbn [negb] in H.
     2:{ rewrite (Hfail eq_refl) in H. injection H as <- <-. cbn. split.
         - destruct I. constructor; cbn; assumption.
@@ -475,5 +499,21 @@ Section Steps.
       destruct (N.eq_dec R' R) as [->|Hne].
       + exfalso. apply Hk. apply del_keys_gone. rewrite <- tget2_inner. apply D. eapply del_keys_sub; eauto.
       + rewrite del_keys_other in Hk by assumption. rewrite tget2_adel_ne by congruence. now apply D.
+  Qed.
+
+  Lemma del_file_inv s R removed ok s' r :
+    del_file U s R removed ok = (s', r) -> legal (ODel R removed ok) -> InvC (store s) s -> disc_ok s ->
+    InvC (store s') s' /\ disc_ok s'.
+  Proof.
+    rewrite del_file_unfold. intros H Hl I D.
+    destruct (trav U (store s) R) as [f|]; [|injection H as <- <-; auto].
+    pose proof (init_chunk_pyramid_frame U s R) as F.
+    destruct (init_chunk_pyramid U s R) as [s0 okp]. cbn [fst] in F.
+    pose proof (Inv_frame U self _ _ _ I F) as I0.
+    pose proof (disc_ok_same3 _ _ (frame_same3 U _ _ F) D) as D0.
+    destruct F as (F1 & _). rewrite <- F1 in I0.
+    destruct okp; cbn [negb] in H.
+    - eapply del_file_tail_inv; eauto.
+    - injection H as <- <-. auto.
   Qed.
 End Steps.
